@@ -10,6 +10,7 @@ import (
 
 	"github.com/itchyny/rassemble-go"
 
+	"github.com/coreruleset/crs-toolchain/v2/internal/verifhook"
 	"github.com/coreruleset/crs-toolchain/v2/regex"
 )
 
@@ -113,6 +114,7 @@ func (a *Assemble) append(identifier string) error {
 			// Treat as literal, could be start of a group or a range expresssion.
 			// Those can not be parsed by rassemble-go, since they are not valid
 			// expressions.
+			verifhook.Emit("literal", a.proc.lines, "")
 			a.output.WriteString(a.proc.lines[0])
 			a.proc.lines = []string{}
 		}
@@ -155,6 +157,7 @@ func (a *Assemble) runAssemble() (regex string, err error) {
 	if err != nil {
 		return "", err
 	}
+	verifhook.Emit("join", a.proc.lines, regex)
 
 	a.proc.lines = []string{}
 	// Wrap in non-capturing group to retain semantics
